@@ -37,6 +37,7 @@ type modelResp struct {
 	ErrDeferred []bool          `json:"errDeferred"`
 	Log         []LogEntry      `json:"log"`
 	KfThunk     [][]interface{} `json:"kfThunk"`
+	Conforms    *bool           `json:"conforms,omitempty"` // only when the request carried "checkData"
 }
 
 type Observed struct {
@@ -496,6 +497,31 @@ func One(run *hx.Run, drv *hx.Driver, m Mode, c *Case) {
 		}
 	}
 	diff, kf := Compare(m, c, obs, &mr, isMut)
+	if m.Conformance && obs.Class == "result" && obs.Data != nil && mr.Class == "result" {
+		// C04: the Conforms checker (GqlModel/Conforms.lean, proved sound) on the REAL executor's data
+		var cr modelResp
+		req["checkData"] = obs.Data
+		if err := drv.Ask(req, &cr); err != nil {
+			run.CheckError(err.Error())
+			return
+		}
+		delete(req, "checkData")
+		switch {
+		case cr.Conforms == nil:
+			run.CheckError("driver does not implement the checkData op")
+			return
+		case !*cr.Conforms:
+			run.Tag("real-data-nonconformant")
+			if diff == "" {
+				diff = "real response does not conform to schema and query"
+			} else {
+				diff = "real response does not conform to schema and query; " + diff
+			}
+			kf = false
+		default:
+			run.Tag("real-data-conforms")
+		}
+	}
 	// bookkeeping
 	run.Tag("entry:" + c.Entry)
 	run.Tag("class:" + mr.Class)
